@@ -12,7 +12,8 @@
               superblock copy (writeGDT)
     rsv i     the i-th reserved GDT block of group 0 (initResizeInode's pointer blocks)
     bbm g     block bitmap of group g: one block at blockBitmapLocation (writeBlockBitmap, Create)
-    ibm g     inode bitmap: inodesPerGroup/8 bytes at inodeBitmapLocation (writeInodeBitmap, Create)
+    ibm g     inode bitmap: inodesPerGroup/8 bytes at inodeBitmapLocation (writeInodeBitmap)
+    ibmInit g Create writes the whole inode bitmap block
     itab g    Create zeroes the whole inode table
     inode n   writeInode / Remove's zeroing: 256 bytes at slot (n-1) % ipg of the table of group (n-1) / ipg
     span …    `len` bytes at offset `off` of the run of `n` blocks starting at block `b`: file data
@@ -51,6 +52,7 @@ inductive Ev where
   | rsv (i : Nat)
   | bbm (g : Nat)
   | ibm (g : Nat)
+  | ibmInit (g : Nat)
   | itab (g : Nat)
   | inode (ino : Nat)
   | span (b n off len : Nat)
@@ -63,6 +65,7 @@ def evRegion (l : Layout) (flex : Bool) : Ev → Region
   | .rsv i => ⟨(groupStart l 0 + 1 + l.gdtBlocks + i) * l.bs, l.bs⟩
   | .bbm g => ⟨metaBase l flex g * l.bs, l.bs⟩
   | .ibm g => ⟨(metaBase l flex g + 1) * l.bs, l.ipg / 8⟩
+  | .ibmInit g => ⟨(metaBase l flex g + 1) * l.bs, l.bs⟩
   | .itab g => ⟨(metaBase l flex g + 2) * l.bs, l.itb * l.bs⟩
   | .inode ino => ⟨(metaBase l flex ((ino - 1) / l.ipg) + 2) * l.bs + (ino - 1) % l.ipg * inodeSize, inodeSize⟩
   | .span b _ off len => ⟨b * l.bs + off, len⟩
@@ -75,6 +78,7 @@ def EvOk (l : Layout) (owned : List Nat) : Ev → Prop
   | .rsv i => i < l.rsvGdt
   | .bbm g => g < l.groups
   | .ibm g => g < l.groups
+  | .ibmInit g => g < l.groups
   | .itab g => g < l.groups
   | .inode ino => 1 ≤ ino ∧ ino ≤ l.inodeCount
   | .span b n off len => 0 < n ∧ (∀ j, j < n → b + j ∈ owned) ∧ off + len ≤ n * l.bs
@@ -151,7 +155,7 @@ def freshOwn (l : Layout) (flex : Bool) : Own :=
 /-- the WriteAts of Create up to the first allocation: boot area, bitmaps and inode tables of every group,
     the reserved GDT blocks (resize inode), descriptor tables and superblocks -/
 def createEvs (l : Layout) : List Ev :=
-  [Ev.boot] ++ (List.range l.groups).flatMap (fun g => [Ev.bbm g, Ev.ibm g, Ev.itab g]) ++
+  [Ev.boot] ++ (List.range l.groups).flatMap (fun g => [Ev.bbm g, Ev.ibmInit g, Ev.itab g]) ++
     (List.range l.rsvGdt).map Ev.rsv ++ metaEvs l
 
 /-- geometry the state must have: as many groups as the layout, no bitmap longer than its group -/
@@ -188,7 +192,7 @@ def classify (l : Layout) (flex : Bool) (off len : Nat) : Cls :=
   else if (superGroups l).any (fun g => evRegion l flex (.sb g) == r) then .sb
   else if (superGroups l).any (fun g => evRegion l flex (.gdt g) == r) then .gdt
   else if (List.range l.groups).any (fun g => evRegion l flex (.bbm g) == r) then .bbm
-  else if (List.range l.groups).any (fun g => evRegion l flex (.ibm g) == r) then .ibm
+  else if (List.range l.groups).any (fun g => evRegion l flex (.ibm g) == r || evRegion l flex (.ibmInit g) == r) then .ibm
   else if (List.range l.groups).any (fun g => evRegion l flex (.itab g) == r) then .itab
   else if len = inodeSize ∧ (List.range l.groups).any (fun g =>
       decide ((metaBase l flex g + 2) * l.bs ≤ off) && decide (off + len ≤ (metaBase l flex g + 2) * l.bs + l.ipg * inodeSize) &&
